@@ -1,20 +1,20 @@
 (* props.ml — property id -> (projection, predicate), both extracted from Coq (Obs.v, Preds.v, Preds2.v). *)
 open Model
-let table : (string * (tproj * (config -> trace -> violation list))) list = [
-  ("full", (lift pi_full, p_none));
-  ("C01", (lift pi_C01, p_C01));
-  ("C02", (lift pi_C02, p_C02));
-  ("C03", (pi_C03, p_C03));
-  ("C04", (lift pi_C04, p_C04));
-  ("C05", (lift pi_C05, p_C05));
-  ("C06", (lift pi_C06, p_C06));
-  ("C07", (lift pi_C07, p_C07));
-  ("C10", (lift pi_C10, p_C10));
-  ("C11", (lift pi_C11, p_C11));
-  ("C12", (lift pi_C12, p_C12));
-  ("C13", (lift pi_C13, p_C13));
-  ("C14", (lift pi_C14, p_C14));
-  ("C16", (lift pi_C16, p_C16));
-  ("C17", (lift pi_C17, p_C17));
-  ("C18", (lift pi_C18, p_C18));
+let table : (string * (tproj * (config -> trace -> violation list) * skipper)) list = [
+  ("full", (lift pi_full, p_none, no_skip));
+  ("C01", (lift pi_C01, p_C01, skip_limit));
+  ("C02", (lift pi_C02, p_C02, skip_limit));
+  ("C03", (pi_C03, p_C03, skip_limit));
+  ("C04", (lift pi_C04, p_C04, skip_limit));
+  ("C05", (lift pi_C05, p_C05, skip_limit));
+  ("C06", (lift pi_C06, p_C06, skip_limit));
+  ("C07", (lift pi_C07, p_C07, skip_limit));
+  ("C10", (lift pi_C10, p_C10, skip_limit));
+  ("C11", (lift pi_C11, p_C11, skip_limit));
+  ("C12", (lift pi_C12, p_C12, skip_limit));
+  ("C13", (lift pi_C13, p_C13, skip_limit));
+  ("C14", (lift pi_C14, p_C14, no_skip));
+  ("C16", (lift pi_C16, p_C16, skip_limit));
+  ("C17", (lift pi_C17, p_C17, skip_limit));
+  ("C18", (lift pi_C18, p_C18, skip_limit));
 ]
